@@ -24,6 +24,7 @@ THEOREMS = [
     "Aio.C07.f8_lost_wakeup_unfixed",
     "Aio.C07.race_lost_wakeup_unfixed",
     "Aio.C07.after_close_leak_unfixed",
+    "Aio.C07.trace_orphan_unfixed",
 ]
 RULE = ("a case = (limit, limit_per_host, key of each of N tasks, label sequence); labels: spawn / tick (one ready "
         "callback) / attempt ok|fail / cancel / connect-timeout / release to pool|close / idle connection lost / connector "
@@ -38,11 +39,13 @@ TRUSTED_BASE = [
     "the hand-written model AioModel/C07.lean is tied to connector.py only by trace conformance (state projection after every label)",
     "CPython asyncio semantics assumed by the model: ready callbacks run FIFO; Task.cancel() cancels a pending awaited future or sets "
     "must_cancel; asyncio.timeout converts its own cancellation into TimeoutError (exercised by the correspondence, not proved)",
-    "trace callbacks (extra await points inside connect/_get), keep-alive expiry/_cleanup timers, force_close and SSL abort are not modelled",
+    "keep-alive expiry/_cleanup timers, force_close and SSL abort are not modelled; trace callbacks are modelled as await points "
+    "(one Trace per request, each selected hook suspends once); the ClientSession/ClientResponse layer (release of the Connection "
+    "when the request writer is still pending) is NOT modelled in Lean: 810 session-level scenarios are judged by a direct oracle only",
     "random.shuffle in _release_waiter is replaced by a label-given order (every order is a possible shuffle result)",
 ]
 ASSUMPTIONS = [
-    "theorems are about the model with the four repairs switched on (Fixes.all); for the code as it is (Fixes.none) the "
+    "theorems are about the model with the five repairs switched on (Fixes.all); for the code as it is (Fixes.none) the "
     "deviations are kernel-checked counterexamples and the direct oracle reports them on the real connector",
     "no_forgotten_waiter (global quiescence form) is NOT proved; proved instead: the wake-up step (release_waiter_wakes, "
     "no_forgotten_waiter_partial) for every state; the rest is covered by correspondence + exhaustive small-scope exploration",
